@@ -100,7 +100,7 @@ Fixpoint run_obs_strict (s : lstate) (l : list (op * list obs)) (k : nat) : lsta
   | [] => inl s
   | (o, bs) :: l' =>
       match vstep s o with
-      | Some s' => if forallb (check_obs s' o) bs then run_obs_strict s' l' (S k) else inr k
+      | Some s' => if forallb (check_obs s s' o) bs then run_obs_strict s' l' (S k) else inr k
       | None => inr k
       end
   end.
